@@ -659,8 +659,22 @@ def rule_rejections(facts):
                 gb, t, cond = inner
                 truth = cond == ("notin", (0,)) or (cond[0] == "is" and cond[1] == 1)
                 s_ = pat.cmp_sides(t)
+                # a test on the 16-bit stream flags that never fires on a well-formed value (first byte null, second byte one of
+                # the check ids of the format) refuses no well-formed file - whatever its spelling
+                leaves = [q for q in flow.term_atoms(t) if q[0] in ("arg", "field", "call")]
+                if leaves and all(q[0] == "arg" and b.locals[q[1]].ty.k == "uint" and b.locals[q[1]].ty.bits == 16 for q in leaves) and \
+                        fn.endswith("StreamFlags::parse"):
+                    try:
+                        fires = [pat._cond_holds(t, cond, lambda q, v=v: v if q[0] == "arg" else (_ for _ in ()).throw(pat.NotEvaluable(q)))
+                                 for v in (0x0000, 0x0001, 0x0004, 0x000A)]
+                        if not any(fires):
+                            why = "stream flags: fires on no well-formed flags value"
+                    except (pat.NotEvaluable, pat.Overflow):
+                        pass
                 # reserved bits / unsupported ids / classification switches (C18 decides their exactness)
-                if t[0] == "arg" or (t[0] == "cast" and t[2][0] == "arg") or (s_ and (s_[1][0] == "arg" or s_[2][0] == "arg") and "id" in str(s_)):
+                if why is not None:
+                    pass
+                elif t[0] == "arg" or (t[0] == "cast" and t[2][0] == "arg") or (s_ and (s_[1][0] == "arg" or s_[2][0] == "arg") and "id" in str(s_)):
                     why = "id classification (C18.R1/R2)"
                 elif s_ and pat.has_op(t, ("BitAnd",)) and pat.has_call(t, "read_u8") and s_[2] == ("const", 0):
                     why = "reserved bits (C18.R3)"
